@@ -84,3 +84,17 @@ pub proof fn lemma_not_rejected_static(s: Seq<char>, toks: Seq<HctlToken>)
 {
     assert forall|t2: Seq<HctlToken>| view_toks(t2) == view_toks(toks) implies sp_formula(t2) == sp_formula(toks) by { lemma_sp_view(t2, toks, 10); }
 }
+// ---- C17: "every formula file (any mix of comment lines, blank lines and surrounding whitespace)": the formulae are the lines of
+// the file, with surrounding white space removed, that are neither blank nor comments (first character '#'), in file order
+pub open spec fn keep_line(l: Seq<char>) -> bool { trim_of(l).len() > 0 && trim_of(l)[0] != '#' }
+pub open spec fn formulae_of(ls: Seq<Seq<char>>) -> Seq<Seq<char>> decreases ls.len() {
+    if ls.len() == 0 { Seq::<Seq<char>>::empty() }
+    else if keep_line(ls[0]) { seq![trim_of(ls[0])] + formulae_of(ls.drop_first()) }
+    else { formulae_of(ls.drop_first()) }
+}
+pub open spec fn str_views(v: Seq<String>) -> Seq<Seq<char>> { Seq::new(v.len(), |i: int| v[i]@) }
+pub broadcast proof fn lemma_str_views_push(v: Seq<String>, s: String)
+    ensures #[trigger] str_views(v.push(s)) == str_views(v) + seq![s@]
+{
+    assert(str_views(v.push(s)) =~= str_views(v) + seq![s@]);
+}
